@@ -186,6 +186,28 @@ CLAIMS = {
         technique='Lean 4 proof (invariant over all schedules of the interleaving model) + event-replay correspondence + '
                   'shared-write monitor + deterministic line-level scheduler as failing-schedule search',
         ref='DESIGN.md §5 C18'),
+    'C05': dict(
+        text='Lean 4 theorems about the guarded read sites of the interpreter model (guard installed; Env.denied / '
+             'Env.deniedItems = what the attribute / item guard refuses), for ALL objects, names, traces: '
+             'instance_lookup_guarded (an InstanceDict — client object, with-object, pushed dtml-in item — asks the guard first, '
+             'one guard event, refusal => Unauthorized and no value), denied_never_returned, instance_noninterference (objects '
+             'agreeing on the allowed attributes are indistinguishable: same value / refusal, same guard trace), '
+             'cache_hit_no_read, underscore_private (names starting with _ are never read from client objects, guard or not), '
+             'expr_attr_guarded / expr_attr_denied, in_item_guarded (every element is fetched through the item guard; a refused '
+             'element raises or, with skip_unauthorized, is skipped unrendered), denied_item_content_irrelevant, with_only_guarded. '
+             'Correspondence: results, call traces AND the ordered guard log (attribute / item guard events) of random programs '
+             'with refused (object, attribute) pairs, refused items and skip_unauthorized, real classes with a recording guard vs '
+             'the model. Oracle: marker non-interference + "every read was asked of the guard" over 31 channels x {fresh, after an '
+             'unguarded rendering of the same compiled template} x 4 marker assignments; underscore names; restricted '
+             'expressions naming _attributes rejected',
+        note='Trusted: Lean kernel; interpreter model validated (not verified) incl. the guard log; AccessControl / '
+             'RestrictedPython external. Partial: whole-rendering non-interference is decided by the marker oracle (the Lean side '
+             'proves each read site and local non-interference); channels that are unguarded in the code are known findings '
+             '(C05-sequence-var, -first-last, -statistics, -sort-key, -expr-getitem, -underscore-getattr); dtml-tree branches '
+             'are not covered',
+        technique='Lean 4 proof (case analysis of each guarded read site of the interpreter) + model/implementation '
+                  'correspondence on the guard log + marker non-interference oracle',
+        ref='DESIGN.md §5 C05'),
     'C08': dict(
         text='Lean 4 theorems about the interpreter model (Render.lean: namespace stack, lookups with auto-call, '
              'expressions, every block tag, sub-template calls, dtml-return, exceptions, fault plans as part of the '
